@@ -138,6 +138,29 @@ CHECKS["C02"] = {
     "bounds": {"quick": "R<=3 (subset of handler-kind combinations for R=3), L<=3, <=3 rounds, N<=2", "thorough": "R<=3 all 27 combinations, L<=4, <=4 rounds"},
 }
 
+CHECKS["C01"] = {
+    "harnesses": [
+        H("c01.VH_read_step", {}, {}, covers=["served from the buffer", "matching mode, buffer consumed", "served from the network"]),
+        H("c01.VH_prefetch_step", {}, {}, covers=["buffer full", "read in place", "read through a pooled chunk"]),
+        H("c01.VH_match_step", {}, {}, covers=["matcher read bytes"]),
+        H("c01.VH_step_rec", {"READS": 2}, {"READS": 3}, covers=["recorder ran", "bytes buffered at handler time", "more than 4096 bytes buffered", "read to EOF"], weight=3),
+        H("c01.VH_step_wrap", {"READS": 2}, {"READS": 3}, covers=["wrapping handler ran", "recorder ran", "more than 4096 bytes buffered"], weight=4),
+        H("c01.VH_step_throttle", {"READS": 2}, {"READS": 3}, covers=["recorder ran", "more than 4096 bytes buffered"], weight=3),
+        H("c01.VH_step_proxyproto", {"params": {"READS": 1, "OFFSET0": 1, "HCHOICE": 1, "MAXB": 5000, "MAXD": 1000, "ROUNDS": 2}, "timeout_ms": 60000},
+          {"params": {"READS": 2, "OFFSET0": 1, "HCHOICE": 1, "MAXB": 6000, "MAXD": 1000, "ROUNDS": 2}, "timeout_ms": 120000},
+          covers=["recorder ran", "more than 4096 bytes buffered"], weight=5, validate=False),
+        H("c01.VH_step_tee", {"MAXB": 3000}, {"MAXB": 5000}, covers=["recorder ran", "bytes buffered at handler time", "read to EOF"], weight=8, validate=False),
+        H("c01.VH_core", {"ROUNDS": 2, "READS": 2}, {"ROUNDS": 3, "READS": 2}, covers=["recorder ran", "buffer grew beyond the pooled capacity", "read to EOF"], weight=4),
+        H("c01.VH_two_matchers", {"ROUNDS": 2}, {"ROUNDS": 3}, covers=["recorder ran"], weight=8),
+        H("c01.VH_wrap", {"ROUNDS": 2}, {"ROUNDS": 3}, covers=["recorder ran", "wrapping handler ran"], weight=5),
+    ],
+    "level_text": "bounded model checking with the real constants (2048-byte prefetch chunk, 8192-byte limit, bufio's 4096): (1) one-step lemmas from an arbitrary Connection state satisfying the representation invariant - Read, prefetch, MatcherSet.Match(freeze/unfreeze) preserve the abstract stream buf[offset:]++unread; (2) every shipped wrapping handler (proxy_protocol with its real bufio.Reader, tee with its real io.Pipe and goroutine, throttle, a TLS-shaped drain-and-Wrap handler) started from an arbitrary post-matching state (up to 10239 buffered bytes, symbolic offset) followed by a recorder whose every read must continue the client's stream; (3) whole Compile runs over 2-3 prefetch rounds on streams up to 24 KiB",
+    "level_note": "the PROXY header parser is replaced by 'consume H bytes from the handler's bufio.Reader' (H in {16,107,536}); TLS is represented by a handler that reads through cx at least everything prefetched and then calls cx.Wrap (a conforming client cannot send its second flight before the server's first) - crypto/tls itself is not executed; tee runs in the engine's goroutine mode (cooperative schedule, no pre-emption); the echo handler's io.Copy loop is not covered (queries undecided within the time slice); whole-chain runs are limited to 2 (quick) / 3 (thorough) prefetch rounds",
+    "assumptions": ["proxyprotocol.Parse replaced by: discard H bytes from the bufio.Reader, succeed", "TLS-shaped handler: consumes at least all prefetched bytes before Wrap", "client = SymConn (arbitrary non-empty segments, then EOF)"],
+    "outside": ["echo handler", "crypto/tls record layer", "more than 3 prefetch rounds in whole-chain runs (the one-step lemmas cover any number)", "streams above 24 KiB"],
+    "bounds": {"quick": "buffer <= 10239, offset symbolic, stream <= 24 KiB, 2 rounds, 2 reads per handler", "thorough": "3 rounds, 3 reads"},
+}
+
 NOT_APPLICABLE = {
     "C15": "Caddyfile->JSON adaptation and JSON round-trip run through the Caddyfile lexer, encoding/json reflection and Caddy's module loader over an unbounded configuration grammar; this cannot be encoded by a hand-written go/ssa symbolic executor (reflection refused, inputs are programs of a grammar, not bounded bytes/integers)",
 }
